@@ -68,3 +68,170 @@ func VerifC08_AES() {
 	}
 	vReached("end")
 }
+
+// C08 (IPMI message): any message value (6-bit sequence and NetFn, 2-bit LUNs, fields
+// not applicable to the NetFn class zero) around an inner payload of 0..L bytes
+// serialises to bytes that decode to an equal value and the same payload, and the decoded
+// value serialises to the same bytes.
+func VerifC08_Message() {
+	cls := vChoice(3) // 0 plain, 1 group extension, 2 OEM
+	response := vBool()
+	var fn NetworkFunction
+	switch cls {
+	case 0:
+		f := vByte() & 0x3e
+		vAssume(f != 0x2c)
+		vAssume(f != 0x2e)
+		fn = NetworkFunction(f)
+	case 1:
+		fn = NetworkFunctionGroupReq
+	case 2:
+		fn = NetworkFunctionOEMReq
+	}
+	if response {
+		fn |= 1
+	}
+	m := &Message{
+		Operation:     Operation{Function: fn, Command: CommandNumber(vByte())},
+		RemoteAddress: Address(vByte()),
+		RemoteLUN:     LUN(vByte() & 3),
+		LocalAddress:  Address(vByte()),
+		LocalLUN:      LUN(vByte() & 3),
+		Sequence:      vByte() & 0x3f,
+	}
+	if response {
+		m.CompletionCode = CompletionCode(vByte())
+	}
+	switch cls {
+	case 1:
+		m.Body = BodyCode(vByte())
+	case 2:
+		m.Enterprise = 0
+		e := vU32()
+		vAssume(e < 1<<24)
+		m.Operation.Enterprise = ianaEnterprise(e)
+	}
+	n := vLen(0, vParam("maxpayload", 24))
+	payload := vBytes(n)
+	buf := gopacket.NewSerializeBuffer()
+	err := gopacket.SerializeLayers(buf, vSerOpts, m, gopacket.Payload(payload))
+	vAssert(err == nil, "c08-message-serialises")
+	wire := vCopy(buf.Bytes())
+	var d Message
+	err = d.DecodeFromBytes(wire, gopacket.NilDecodeFeedback)
+	vAssert(err == nil, "c08-message-decodes-its-own-serialisation")
+	if err != nil {
+		return
+	}
+	vAssert(vSameFields(&d, m, "BaseLayer"), "c08-message-roundtrip-equal-value")
+	vAssert(vBytesEq(d.LayerPayload(), payload), "c08-message-roundtrip-payload")
+	buf2 := gopacket.NewSerializeBuffer()
+	err = gopacket.SerializeLayers(buf2, vSerOpts, &d, gopacket.Payload(d.LayerPayload()))
+	vAssert(err == nil && vBytesEq(buf2.Bytes(), wire), "c08-message-reserialises-to-the-same-bytes")
+	vReached("end")
+}
+
+// C08 (v1.5 session wrapper), with and without an AuthCode.
+func VerifC08_V1Session() {
+	s := &V1Session{Sequence: vU32(), ID: vU32()}
+	if vBool() {
+		s.AuthType = AuthenticationType(vByte())
+		vAssume(s.AuthType != AuthenticationTypeNone)
+		copy(s.AuthCode[:], vBytes(16))
+	}
+	n := vLen(0, vParam("maxpayload", 24))
+	payload := vBytes(n)
+	buf := gopacket.NewSerializeBuffer()
+	err := gopacket.SerializeLayers(buf, vSerOpts, s, gopacket.Payload(payload))
+	vAssert(err == nil, "c08-v1session-serialises")
+	wire := vCopy(buf.Bytes())
+	var d V1Session
+	err = d.DecodeFromBytes(wire, gopacket.NilDecodeFeedback)
+	vAssert(err == nil, "c08-v1session-decodes-its-own-serialisation")
+	if err != nil {
+		return
+	}
+	vAssert(vSameFields(&d, s, "BaseLayer"), "c08-v1session-roundtrip-equal-value")
+	vAssert(vBytesEq(d.LayerPayload(), payload), "c08-v1session-roundtrip-payload")
+	buf2 := gopacket.NewSerializeBuffer()
+	err = gopacket.SerializeLayers(buf2, vSerOpts, &d, gopacket.Payload(d.LayerPayload()))
+	vAssert(err == nil && vBytesEq(buf2.Bytes(), wire), "c08-v1session-reserialises-to-the-same-bytes")
+	vReached("end")
+}
+
+// C08 (v2.0 session wrapper): IPMI and OEM payload descriptors, unauthenticated and
+// authenticated with each integrity algorithm (hash as an uninterpreted function), any key.
+func VerifC08_V2Session() {
+	s := &V2Session{Encrypted: vBool(), ID: vU32(), Sequence: vU32()}
+	if vBool() {
+		s.PayloadDescriptor = PayloadDescriptor{PayloadType: PayloadTypeOEM, Enterprise: ianaEnterprise(vU32()), PayloadID: vU16()}
+	} else {
+		pt := vByte() & 0x3f
+		vAssume(PayloadType(pt) != PayloadTypeOEM)
+		s.PayloadDescriptor = PayloadDescriptor{PayloadType: PayloadType(pt)}
+	}
+	alg := vChoice(4) // 0 unauthenticated; 1..3 HMAC-SHA1-96, HMAC-MD5-128, HMAC-SHA256-128
+	var key []byte
+	macLen := 0
+	if alg > 0 {
+		s.Authenticated = true
+		key = vBytes(20)
+		s.IntegrityAlgorithm = vIntegrity(alg, key)
+		macLen = []int{0, 12, 16, 16}[alg]
+	}
+	n := vLen(0, vParam("maxpayload", 20))
+	payload := vBytes(n)
+	buf := gopacket.NewSerializeBuffer()
+	err := gopacket.SerializeLayers(buf, vSerOpts, s, gopacket.Payload(payload))
+	vAssert(err == nil, "c08-v2session-serialises")
+	wire := vCopy(buf.Bytes())
+	hdr := 12
+	if s.PayloadType == PayloadTypeOEM {
+		hdr = 18
+	}
+	if alg > 0 {
+		q := (4 - (hdr+n+2)%4) % 4
+		vAssert(len(wire) == hdr+n+q+2+macLen, "c08-v2session-authenticated-length")
+		vAssert(vBytesEq(wire[len(wire)-macLen:], refHMAC(alg, key, wire[:len(wire)-macLen])[:macLen]), "c08-v2session-authcode-covers-header-to-next-header")
+	} else {
+		vAssert(len(wire) == hdr+n, "c08-v2session-unauthenticated-length")
+	}
+	d := V2Session{}
+	if alg > 0 {
+		d.IntegrityAlgorithm = vIntegrity(alg, key)
+	}
+	err = d.DecodeFromBytes(wire, gopacket.NilDecodeFeedback)
+	vAssert(err == nil, "c08-v2session-decodes-its-own-serialisation")
+	if err != nil {
+		return
+	}
+	vAssert(d.Encrypted == s.Encrypted && d.Authenticated == s.Authenticated && d.ID == s.ID && d.Sequence == s.Sequence &&
+		d.PayloadDescriptor == s.PayloadDescriptor && int(d.Length) == n && d.Pad == s.Pad, "c08-v2session-roundtrip-equal-value")
+	vAssert(vBytesEq(d.LayerPayload(), payload), "c08-v2session-roundtrip-payload")
+	buf2 := gopacket.NewSerializeBuffer()
+	err = gopacket.SerializeLayers(buf2, vSerOpts, &d, gopacket.Payload(d.LayerPayload()))
+	vAssert(err == nil && vBytesEq(buf2.Bytes(), wire), "c08-v2session-reserialises-to-the-same-bytes")
+	vReached("end")
+}
+
+// C08 (RAKP Message 1): every username length 0..16.
+func VerifC08_RAKPMessage1() {
+	r := &RAKPMessage1{Tag: vByte(), ManagedSystemSessionID: vU32(), PrivilegeLevelLookup: vBool(), MaxPrivilegeLevel: PrivilegeLevel(vByte() & 0xf)}
+	copy(r.RemoteConsoleRandom[:], vBytes(16))
+	r.Username = string(vBytes(vLen(0, 16)))
+	buf := gopacket.NewSerializeBuffer()
+	err := gopacket.SerializeLayers(buf, vSerOpts, r)
+	vAssert(err == nil, "c08-rakp1-serialises")
+	wire := vCopy(buf.Bytes())
+	var d RAKPMessage1
+	err = d.DecodeFromBytes(wire, gopacket.NilDecodeFeedback)
+	vAssert(err == nil, "c08-rakp1-decodes-its-own-serialisation")
+	if err != nil {
+		return
+	}
+	vAssert(vSameFields(&d, r, "BaseLayer"), "c08-rakp1-roundtrip-equal-value")
+	buf2 := gopacket.NewSerializeBuffer()
+	err = gopacket.SerializeLayers(buf2, vSerOpts, &d)
+	vAssert(err == nil && vBytesEq(buf2.Bytes(), wire), "c08-rakp1-reserialises-to-the-same-bytes")
+	vReached("end")
+}
